@@ -73,8 +73,14 @@ class Gen:
         if k < 0.45:
             return "%s %s %s" % (self.int_atom(env, d - 1), r.choice(["<", "<=", ">", ">=", "==", "!="]),
                                  self.int_atom(env, d - 1))
-        if k < 0.65:
+        if k < 0.62:
             return "(%s) %s (%s)" % (self.bool_expr(env, d - 1), r.choice(["and", "or"]), self.bool_expr(env, d - 1))
+        if k < 0.65:
+            # an assertion guarded by a short-circuit operator: it must only run (and possibly fail) when the left
+            # operand lets the right one be evaluated
+            a = self.int_atom(env, d - 1)
+            b = a if r.random() < 0.4 else self.int_atom(env, d - 1)
+            return "(%s) %s (%s <=> %s)" % (self.bool_expr(env, d - 1), r.choice(["and", "or"]), a, b)
         if k < 0.75:
             return "not (%s)" % self.bool_expr(env, d - 1)
         if k < 0.85:
